@@ -1,7 +1,7 @@
 /-
   C18/Driver — line protocol front end (core-only).
     inject <k> <intry|free> <vars|-> <program>   a foreign panic injected at evaluation step k of the C01-language program
-    depth <L> <d>                   stack limit L, d nested calls from the global scope
+    depth <L> <d> <leaf>            stack limit L, d nested script calls whose innermost enters further scopes (leaf kind)
     interrupt <shape>               a halting interrupt sent while a script spins
 -/
 import OttoVerif.Base.Proto
@@ -47,17 +47,21 @@ def handle (ws : List String) : String :=
           "escapes-or-caught;rest:ok;trace:any;follow:ok " ++ spec ++ " trycatch_foreign"
         else spec ++ " " ++ spec ++ " -"
     | _ => "bad-op"
-  | ["depth", l, d] =>
-    match l.toNat?, d.toNat? with
-    | some L, some (d+1) =>
-      let out := (runAct L (nest d) [0]).2
+  | ["depth", l, d, leaf] =>
+    -- d script calls, the innermost of which enters `extra` further nested scopes (a native function,
+    -- a native calling back into script, call/apply + target …): a chain of d + extra nested calls
+    let extra : Option Nat := match leaf with
+      | "0" => some 0 | "1" => some 1 | "2" => some 2 | "3" => some 2 | "4" => some 2 | "5" => some 1 | _ => none
+    match l.toNat?, d.toNat?, extra with
+    | some L, some (d+1), some x =>
+      let out := (runAct L (nest (d + x)) [0]).2
       let tok := match out with
-        | .done => "ok;rest:ok"
-        | _ => "RangeError;catchable;rest:ok"
+        | .done => "ok;rest:ok;follow:ok"
+        | _ => "RangeError;catchable;rest:ok;follow:ok"
       -- spec (property text): the limit admits exactly the configured nesting, i.e. L-1 calls below the global scope
-      let spec := if L = 0 ∨ d + 1 < L then "ok;rest:ok" else "RangeError;catchable;rest:ok"
+      let spec := if L = 0 ∨ d + x + 1 < L then "ok;rest:ok;follow:ok" else "RangeError;catchable;rest:ok;follow:ok"
       tok ++ " " ++ spec ++ " -"
-    | _, _ => "bad-op"
+    | _, _, _ => "bad-op"
   | ["interrupt", _shape, "free"] => "halted;rest:ok;follow:ok halted;rest:ok;follow:ok -"
   | ["interrupt", _shape, "intry"] => "halted-or-caught;rest:ok;follow:ok halted;rest:ok;follow:ok trycatch_foreign"
   | _ => "bad-op"
